@@ -44,7 +44,11 @@ RULE = (
     "CONCATENATED streams (2-3 complete record streams in one file: plain, gzip of the whole, gzip members), whose embedded "
     "header frame must never reach the selector.  Text form: the post-filter uses a fresh interpreted Selector(text); family "
     "text-engine runs expressions on which the engines are known to differ (only there) after the same text was compiled "
-    "in the process.  A filter case is non-trivial when the source "
+    "in the process.  Re-iteration: every reader opened with a selector is also iterated partially, then again twice; every "
+    "record it EVER yields must satisfy a fresh selector (later-iteration yields are counted).  Equal-but-different constructor "
+    "arguments (1 / True / 1.0, 0 / False / 0.0 / -0.0 in varint / boolean / float fields of different record types, and as "
+    "literals): whitelisted constructors over them in sources of both orders, and in the fresh-process comparison, where the "
+    "selectors themselves are also evaluated in a different order (S1 then S2 vs S2 then S1).  A filter case is non-trivial when the source "
     "holds >= 2 records; it is *discriminating* when the selector keeps some but not all records (counted per adapter, "
     "required > 0); distinct = distinct (adapter, sequence seed, expression, form)."
 )
@@ -129,7 +133,18 @@ ENGINE_DIVERGENT = [
 ]
 INTERLEAVE_PAIRS = [("small", "other"), ("flat", "small"), ("other", "flat"), ("nested", "small"), ("small", "main-full")]
 
-TARGETED = TARGETED + FIELDS_EXPR + LIST_HELPER_EXPR
+# whitelisted constructors applied to equal-but-different arguments: the result must not depend on which was converted first
+EQVAL_EXPR = [
+    'string(r.v) == "True"', 'string(r.v) in ("1", "1.0")', 'wstring(r.v) == "1.0" or r.name == "text"', 'str(varint(r.v)) == "1"',
+    'str(float(r.v)) == "1.0"', 'str(uint32(r.v)) == "1"', 'str(boolean(r.v)) == "True"', 'repr(float(r.v)) == "0.0"', 'str(string(r.v)) == "0"',
+    'str(string(r.v)) == "False"', 'get_type(dynamic(r.v)) == get_type(dynamic(1))',
+    'str(string(1)) == "1"', 'str(string(True)) == "True"', 'str(string(1.0)) == "1.0"', 'str(uint32(True)) == "1"', 'str(uint32(1)) == "1"',
+    'str(float(1)) == "1.0"', 'str(float(True)) == "1.0"', 'str(varint(1.0)) == "1"', 'str(varint(True)) == "1"', 'str(boolean(1)) == "True"',
+    'str(boolean(True)) == "True"', 'str(string(0)) == "0"', 'str(string(False)) == "False"', 'str(string(0.0)) == "0.0"',
+    'str(string(-0.0)) == "-0.0"', 'get_type(dynamic(True)) == get_type(dynamic(1))', 'get_type(dynamic(1)) == get_type(dynamic(1.0))',
+]
+
+TARGETED = TARGETED + FIELDS_EXPR + LIST_HELPER_EXPR + EQVAL_EXPR
 # expressions that raise on some or all records: both sides must raise alike
 RAISING = [
     'r.n + "x" == 1', 'field_regex(r, ["s"], "(")', 'r.n / 0 == 1', 'r.s < 1', 'undefined_name == 1', 'r.s.upper() == "X"', 'r.n > "a"',
@@ -145,7 +160,7 @@ COLD_FIXED = [
     'any(f.name == "n" for f in fields("varint"))', 'any(f.name == "t" for f in fields("string"))', '"hello" in lower(r.l)',
     'field_contains(r, ["l", "sl"], ["hello"])', "r.k == 1", "r.k >= 0 or r.f > 1", '"Hello" in r.l', "r.n == r.k", 'has_field(r, "k")',
     "r.k in [0, 1, 2, 3, 5, 7, 100]",
-]
+] + EQVAL_EXPR
 
 
 # ---- match recorder ----------------------------------------------------------------------------------
@@ -236,7 +251,21 @@ def build_pool(rng):
     (lacking k / l, having them, lacking them)."""
     pool = selgen.record_pool(rng, grouped=True) + flat_records(rng, 3)
     g = group_records(rng)
-    return pool + [g["L"][0], g["H"][0], g["L"][1]]
+    return pool + [g["L"][0], g["H"][0], g["L"][1]] + eqval_records()
+
+
+EQVAL_FIELDS = {"int": "varint", "bool": "boolean", "float": "float", "text": "string"}
+
+
+def eqval_records():
+    """Records whose field `v` holds values that are equal but not the same: 1 / True / 1.0 (and 0 / False / 0.0) in a varint, a
+    boolean and a float field of three record types, plus text look-alikes."""
+    from flow.record import RecordDescriptor
+
+    D = {k: RecordDescriptor("c10/eqv_" + k, [(t, "v"), ("string", "name")]) for k, t in EQVAL_FIELDS.items()}
+    return [D["int"](v=1, name="int-one"), D["bool"](v=True, name="bool-true"), D["float"](v=1.0, name="float-one"), D["text"](v="True", name="text"),
+            D["int"](v=0, name="int-zero"), D["bool"](v=False, name="bool-false"), D["float"](v=0.0, name="float-zero"),
+            D["text"](v="1", name="text-one")]
 
 
 GROUP_NAME = "sel/grouped"  # the name selgen's grouped record uses: compositions differ, the name does not
@@ -301,13 +330,15 @@ def ignored_sequence(seed, field):
 
 
 def shape_label(rec):
+    if str(getattr(rec._desc, "name", "")).startswith("c10/eqv_"):
+        return "eqval"
     return "flat" if getattr(rec._desc, "name", "") == "c10/flat" else selgen.shape_of(rec)
 
 
 def pool_by_shape(seed):
     rng = random.Random(seed)
     by = {}
-    for r in selgen.record_pool(rng, grouped=True) + flat_records(rng, 6):
+    for r in selgen.record_pool(rng, grouped=True) + flat_records(rng, 6) + eqval_records():
         by.setdefault(shape_label(r), []).append(r)
     return by
 
@@ -546,6 +577,13 @@ def generate(ctx):
                         yield {"k": "filter", "adapter": adapter, "seq": subseed("c10", "interleave", adapter, pi, ei % 3), "interleave": list(pair),
                                "expr": e, "ek": "fields-helper" if exprs is FIELDS_EXPR else "list-helper"}
                     idx += 1
+    # equal-but-different constructor arguments (1 / True / 1.0 ...) spread over record types, file in both orders
+    for adapter in ("stream", "jsonfile", "sqlite", "csvfile"):
+        for order in ("forward", "backward"):
+            for ei, e in enumerate(EQVAL_EXPR[:11]):
+                if ctx.mine(idx):
+                    yield {"k": "eqval", "adapter": adapter, "order": order, "expr": e, "ek": "equal-but-different-arguments", "seq": order}
+                idx += 1
     # records that compare == to their predecessor (active ignore-fields configuration) but differ in what the selector reads
     for field in IGNORED:
         for ei, e in enumerate(IGNORED[field]["exprs"]):
@@ -600,6 +638,12 @@ def execute(ctx, case):
         run_cold(ctx, case)
     elif case["k"] == "textengine":
         run_textengine(ctx, case)
+    elif case["k"] == "eqval":
+        seq = eqval_records()
+        if case["order"] == "backward":
+            seq.reverse()
+        run_filter(ctx, case, prebuilt=(seq, "eqval:" + case["order"]))
+        ctx.cell("equal-but-different-arguments", case["adapter"], case["order"])
     elif case["k"] == "ignored":
         run_ignored(ctx, case)
     elif case["k"] == "grouped":
@@ -772,11 +816,65 @@ def filter_one(ctx, case, adapter, kind, url, expr, ek, form, plain, plain_obs, 
     else:
         ctx.violation(None, "only one of {reader with selector, filtering afterwards} raises (%s)" % adapter,
                       detail=dict(detail, reader=repr(got_exc)[:300], afterwards=repr(exp_exc)[:300], yielded=len(got_obs), expected=len(expected)))
+    reiterate(ctx, adapter, url, expr, form, detail)
     ctx.cell(adapter, form, ek)
     ctx.cell("sequence", adapter, kind)
     ctx.nontrivial(adapter, case["seq"], expr, form)
     ctx.sample({"adapter": adapter, "expression": expr, "form": form, "source_records": len(plain), "kept": len(expected),
                 "raised": type(exp_exc).__name__ if exp_exc else None}, kind=adapter + ":" + form)
+
+
+def reiterate(ctx, adapter, url, expr, form, detail):
+    """Every record a reader opened with selector=S EVER yields satisfies S: a partial first pass, then the same reader object
+    iterated again, and again (whatever a second iteration does on this tree - nothing, the rest, or everything once more)."""
+    from flow.record import RecordReader
+
+    try:
+        sel_arg = make_form(ctx, form, expr)
+        rd = RecordReader(url, selector=sel_arg) if sel_arg != "" else RecordReader(url)
+    except Exception:  # noqa: BLE001
+        return
+    yielded = []  # (pass number, record)
+    try:
+        try:
+            it = iter(rd)
+            for _ in range(2):
+                yielded.append((1, next(it)))
+        except StopIteration:
+            pass
+        except Exception:  # noqa: BLE001 - matching raises on this source: covered by the comparison above
+            ctx.event("reiterate_first_pass_raised")
+            return
+        for p in (2, 3):
+            try:
+                for r in rd:
+                    yielded.append((p, r))
+            except Exception:  # noqa: BLE001
+                ctx.event("reiterate_pass_raised:" + adapter)
+                break
+    finally:
+        try:
+            rd.close()
+        except Exception:  # noqa: BLE001
+            pass
+    ctx.event("reiterations")
+    ctx.event("reiterated_readers:" + adapter)
+    later = sum(1 for p, _ in yielded if p > 1)
+    ctx.event("records_yielded_by_later_iterations", later)
+    if later:
+        ctx.event("later_iterations_yield:" + adapter)
+    for p, r in yielded:
+        try:
+            s = fresh(ctx, form, expr)
+            ok = (not s) or s.match(r)
+            ok = bool(ok)
+        except Exception:  # noqa: BLE001 - no reference verdict for this record
+            ctx.event("reiterate_verdict_undefined")
+            continue
+        if not ok:
+            ctx.violation(None, "a reader opened with a selector yielded a record the selector does not match (iteration %d, %s)" % (min(p, 2), adapter),
+                          detail=dict(detail, iteration=p, record=repr(r)[:300]))
+            break
 
 
 # ---- oracle: purity --------------------------------------------------------------------------------------
@@ -1037,6 +1135,7 @@ def finish(ctx):
     ev = ctx.events
     ctx.require(ev["compared_ok"] > 0, "no filter case was compared")
     ctx.require(ev["purity_cases"] > 0, "no purity case ran")
+    ctx.require(ev["reiterations"] > 0, "no reader was iterated a second time")
     ctx.require(ev["textengine_cases"] == 0 or ev["textengine_engines_differ_in_memory"] > 0,
                 "the text-engine family never met records on which the two engines differ")
     ctx.require(ev["mutate_answer_changes"] > 0, "no mutate-then-rematch case in which the answer changes ran")
